@@ -3,6 +3,7 @@ package main
 import (
 	"fmt"
 	"os"
+	"strings"
 	"sync"
 	"sync/atomic"
 	"time"
@@ -274,6 +275,55 @@ func c08(args []string) error {
 			}
 			tr.Emit(map[string]any{"ev": "ret", "id": id, "st": st})
 		}
+	}
+
+	// ---- F. seeds through the real preprocessor WORKER (its receive loop, not only preprocess()), built the way the queue
+	//         consumers build them (text + Parse): the same URL arrives twice in two spellings, one after the other
+	{
+		in := make(chan *models.Item)
+		outc := make(chan *models.Item, 1)
+		if err := preprocessor.Start(in, outc); err != nil {
+			return err
+		}
+		pairs := [][2]string{
+			{"http://f1.one.example:80/a?b=1", "http://f1.one.example/a?b=1"},
+			{"http://F2.One.Example/a", "http://f2.one.example/a"},
+			{"http://f3.one.example", "http://f3.one.example/"},
+			{"http://f4.one.example/x#frag", "http://f4.one.example/x"},
+			{"http://f5.one.example/a?q=x%20y", "http://f5.one.example/a?q=x+y"},
+			{"http://f6.one.example/p/../a", "http://f6.one.example/a"},
+			{"http://f7.one.example/same", "http://f7.one.example/same"},
+		}
+		through := func(text string) {
+			u := &models.URL{Raw: text}
+			if err := u.Parse(); err != nil {
+				panic(err)
+			}
+			seed := models.NewItem(fmt.Sprintf("seed-%d", c08id.Add(1)), u, "")
+			id := callID.Add(1)
+			tr.Emit(map[string]any{"ev": "call", "id": id, "tag": "worker", "nodes": []c08node{{C: c08url(text, nil).String(), T: "seed"}}})
+			in <- seed
+			got := <-outc
+			st := got.GetStatus().String()
+			if got.GetStatus() == models.ItemPreProcessed && got.GetURL().GetRequest() != nil {
+				st = "PreProcessed"
+			} else if got.GetStatus() == models.ItemSeen || (got.GetStatus() == models.ItemCompleted && got.GetURL().GetRequest() == nil) {
+				st = "Seen" // a seed found in the store leaves the stage as done, without a request
+			}
+			tr.Emit(map[string]any{"ev": "ret", "id": id, "st": []string{st}})
+		}
+		for k, p := range pairs {
+			a, b := p[0], p[1]
+			if k%2 == 1 {
+				a, b = b, a
+			}
+			through(a)
+			through(b)
+			// and the other order on a host of its own
+			through(strings.Replace(b, ".one.", ".two.", 1))
+			through(strings.Replace(a, ".one.", ".two.", 1))
+		}
+		preprocessor.Stop()
 	}
 
 	// ---- D. one tree, the same canonical URL in several spellings: after normalisation, de-duplication and
